@@ -89,6 +89,30 @@ class Check:
                                 "depth": r["depth"], "wall_s": round(r["wall"], 1)})
         return r
 
+    def export(self, module, cfg=None, **kw):
+        """Behaviour export run (spec -> code direction); accumulates TLC's numbers."""
+        objs, r = tlc.export(module, cfg, **kw)
+        self.states += r["distinct"]
+        self.transitions += r["generated"]
+        self.model_runs.append({"module": module, "cfg": os.path.basename(cfg or module + ".cfg"),
+                                "exported": len(objs), "distinct": r["distinct"],
+                                "generated": r["generated"], "wall_s": round(r["wall"], 1)})
+        return objs
+
+    def replay_record(self):
+        """The record stored in the file given with --replay, or None."""
+        if not self.args.replay:
+            return None
+        with open(self.args.replay) as f:
+            return json.load(f)["record"]
+
+    def replayed(self, record, ok, why):
+        """Book-keeping for one behaviour replayed into the implementation."""
+        self.traces += 1
+        self.evaluations += 1
+        if not ok:
+            self.report(record, why)
+
     # ---- judged artefacts -------------------------------------------------
     def judge(self, module, records, name=None, keyf=None, **kw):
         """TLC judges records; failing ones are matched against known findings
